@@ -34,6 +34,21 @@ CHECKS = {
             "TLA+ trace validation (TLC) with twin equality"),
     "C10": ("model_checking", "3 C10", "two instances in one process, A's transmitted bytes delivered verbatim to B (provenance verified by the monitor); TLC requires B's QueryResp to list A's probes",
             "TLA+ trace validation (TLC), Network monitor"),
+    "C11": ("model_checking", "3 C11", "TLC evaluates Automata!Classify on the recorded frame bytes, table and own address and requires the return value of derive_session_event "
+            "(built without LLTD_TESTING) to be in the allowed set: counts 0..240, every position class, table variants, opcodes 0..255, truncated frames",
+            "TLA+ trace validation (TLC) of a function value"),
+    "C12": ("model_checking", "3 C12", "every send_hello callback made by automata_tick (also through the textually extracted Darwin frame path) is checked by TLC against the pacing invariants "
+            "(only in tick, only with an incomplete session, >= 1000 ms apart); the abstract timed model TickPacing is model-checked exhaustively",
+            "TLA+ model checking (TickPacing) + trace validation (TLC)"),
+    "C13": ("model_checking", "3 C13", "TLC compares band_update_stats / band_choose_hello_time results with Automata!NiNext / HelloIntervalMin on boundary-dense r (halves, no 32-bit wrap in the oracle), "
+            "monotone in r along ascending sequences; closed form ALPHA*r^2 >= NMAX for r >= 15 discharged by Apalache (Lemmas.tla)",
+            "TLA+ trace validation (TLC) + Apalache lemma"),
+    "C14": ("model_checking", "3 C14", "exhaustive single steps 3 states x inputs -128..255 x elapsed classes against Automata!MappingStep, event/time histories, and the tick's 30 s inactivity rule "
+            "through the Darwin frame path, all judged by TLC", "TLA+ trace validation (TLC), strict next-state relation"),
+    "C15": ("model_checking", "3 C15", "exhaustive 4 states x session events x elapsed classes against Automata!SessionStep plus random event/time histories, judged by TLC",
+            "TLA+ trace validation (TLC), strict next-state relation"),
+    "C16": ("model_checking", "3 C16", "operation sequences of length 200 over up to 24 keys (full-table case) with clock advances compared step by step by TLC with the dictionary model of Automata.tla "
+            "(return value, count, empty, all-complete, live set); the dictionary model itself is model-checked (AutomataMC)", "TLA+ model checking + trace validation (TLC)"),
     "C18": ("fault_enumeration", "3 C18", "every k-th allocation, every transmit, getter subsets failed per corpus request under ASan; TLC checks reaction bounds, ledger and post-Reset equality with a fresh twin",
             "TLA+ trace validation (TLC) over enumerated fault plans"),
     "C19": ("model_checking", "3 C19", "TLC ledger monitors (plateau under floods of distinct probes, idempotence, reset-constant, per-request growth) on live-allocation counts of the verification port",
